@@ -89,7 +89,7 @@ def _canaries(ctx, obs_files, rejected_lines, want=300):
             if i not in chosen or (f, i + 1) in rejected_lines:
                 continue
             step = json.loads(line)
-            if step.get("from") != "base" or tree is None:
+            if step.get("from") != "base" or tree is None or step.get("skip"):
                 continue
             for tag, c in _corruptions(step):
                 rows.append(tree)
@@ -118,7 +118,11 @@ def _load_case(ctx, rec, inputs):
     """Every case is stored as a history {init, reqs}: a product case is a one-step history from its tree."""
     cid = rec.get("cid", "")
     if cid.startswith("t"):
-        ti, ri = cid[1:].split("r")
+        ti, ri = cid[1:].rstrip("f").split("r")
+        trees = vlib.read_ndjson(inputs["trees"])
+        return {"init": trees[int(ti)], "reqs": [dict(rec["req"])], "conc": rec.get("conc", "id")}
+    if cid.startswith("x"):
+        _, ti = cid[1:].split("t")
         trees = vlib.read_ndjson(inputs["trees"])
         return {"init": trees[int(ti)], "reqs": [dict(rec["req"])], "conc": rec.get("conc", "id")}
     if cid.startswith("h"):
@@ -194,6 +198,9 @@ def run(ctx, replay=None):
     q = ctx.quick()
     binp = ctx.go_build("davrec")
 
+    if prop == "C03":
+        import checks_dav_c03
+        return checks_dav_c03.run(ctx, binp, [], {}, [])
     # F0 + F1: model-check the bounded instance, emit trees and request universes
     gen = ctx.path("gen", ".x")
     gen = os.path.dirname(gen)
@@ -288,7 +295,7 @@ def run(ctx, replay=None):
         return checks_dav_c04.run(ctx, binp, trees, env, product, hists, obs, inputs, info_all, ntrees)
     elif prop == "C03":
         import checks_dav_c03
-        return checks_dav_c03.run(ctx, binp, trees, env, product, obs, inputs, info_all, _canaries, _confirm)
+        return checks_dav_c03.run(ctx, binp, obs, inputs, info_all)
 
     return judge_and_finish(ctx, binp, obs, inputs, info_all, ntrees, nreq)
 
